@@ -129,7 +129,7 @@ fn opt_payload(w: &World, q: &Query, o: &Outcome) -> String {
         Some(_) => match o.routes.first() {
             Some(r) => {
                 let es: Vec<usize> = r.iter().map(|h| h.edge).collect();
-                format!("Ok r={} c={}", show_list(&es, |e| e.to_string()), show_q(table_cost(w, &inner(q, &es))))
+                format!("Ok it={} r={} c={}", o.iters, show_list(&es, |e| e.to_string()), show_q(table_cost(w, &inner(q, &es))))
             }
             None => "Ok noroute".into(),
         },
@@ -754,12 +754,6 @@ fn run_real(c: &RealCase, id: usize, work: &Path) -> Result<RealRun, String> {
     let est: Vec<String> = (0..c.coords.len())
         .map(|v| show_r(si.estimate_traversal_cost(VertexId(v), VertexId(c.t), &init).map(|x| Cost::new(x.as_f64() * Cost::new(wf_eff).as_f64()).as_f64()).map_err(|e| e.to_string())))
         .collect();
-    if std::env::var("C02_DEBUG").is_ok() {
-        for e in 0..m {
-            let et = EdgeTraversal::forward_traversal(EdgeId(e), None, &init, &si).unwrap();
-            eprintln!("edge {} names={:?} state={:?} ac={} tc={} tot={}", e, names, et.result_state.iter().map(|x| show_f64(x.0)).collect::<Vec<_>>(), show_f64(et.access_cost.as_f64()), show_f64(et.traversal_cost.as_f64()), show_f64(et.total_cost().as_f64()));
-        }
-    }
     let i_payload = format!("ec={} est={}", show_list(&ec, |s| s.clone()), show_list(&est, |s| s.clone()));
     // ---- the searches: Dijkstra (no weight factor in its query) and the configured A* with the query as given
     let dj = route_of(SearchAlgorithm::Dijkstra.run_vertex_oriented(VertexId(c.s), Some(VertexId(c.t)), &q_dj, &dir_r, &si));
@@ -1084,7 +1078,7 @@ fn two_route_network(c: &mut RealCase) {
 
 /// mostly very slow streets and one fast two-edge detour: with an estimate at the MEAN table speed the detour's
 /// middle vertex looks hopeless and the slow direct road wins; at the maximum speed the estimate stays admissible
-fn highway_network(c: &mut RealCase, extra_slow: usize) {
+fn highway_network(c: &mut RealCase, extra_slow: usize, direct_speed: f64) {
     c.coords = vec![(20.0, 50.0), (20.5, 50.0), (20.25, 50.125)];
     let mut far: Vec<(f64, f64)> = vec![];
     for i in 0..extra_slow {
@@ -1092,7 +1086,7 @@ fn highway_network(c: &mut RealCase, extra_slow: usize) {
     }
     c.coords.extend(far);
     let mk = |a: usize, b: usize, sp: f64, c: &RealCase| (a, b, metric_len(c.coords[a], c.coords[b], 1.0), sp);
-    let mut es = vec![mk(0, 1, 30.0, c), mk(0, 2, 120.0, c), mk(2, 1, 120.0, c)];
+    let mut es = vec![mk(0, 1, direct_speed, c), mk(0, 2, 120.0, c), mk(2, 1, 120.0, c)];
     for i in 0..extra_slow {
         let a = 3 + i;
         let b = 3 + (i + 1) % extra_slow;
@@ -1152,18 +1146,28 @@ fn real_boundary() -> Vec<RealCase> {
     // query weight factor: the estimate must be multiplied by the factor in force (0, 1/2, 1) - and 3 makes no claim
     for (name, awf, qwf) in [("factor_query_0", None, Some(0.0)), ("factor_query_half", Some(1.0), Some(0.5)), ("factor_config_half", Some(0.5), None), ("factor_query_3", None, Some(3.0))] {
         let mut c = blank_case(name);
-        highway_network(&mut c, 6);
+        highway_network(&mut c, 6, 30.0);
         c.cfg_w = w(0.0, 1.0);
         c.cfg_v = raw();
         c.alg_wf = awf;
         c.q_wf = qwf;
         out.push(c);
     }
+    // the factor in force is the query's: configured 3 (inadmissible on this network), the query says 1 / 0.5 / 0
+    for qwf in [1.0, 0.5, 0.0] {
+        let mut c = blank_case("factor_config3_query");
+        highway_network(&mut c, 4, 60.0);
+        c.cfg_w = w(0.0, 1.0);
+        c.cfg_v = raw();
+        c.alg_wf = Some(3.0);
+        c.q_wf = Some(qwf);
+        out.push(c);
+    }
     // the estimate must use the MAXIMUM table speed
     for k in [4usize, 8, 12] {
         for (du, tu) in [(Some("kilometers"), Some("hours")), (Some("meters"), None), (Some("miles"), Some("minutes"))] {
             let mut c = blank_case("highway_max_speed");
-            highway_network(&mut c, k);
+            highway_network(&mut c, k, 30.0);
             c.du = du.map(|s| s.to_string());
             c.tu = tu.map(|s| s.to_string());
             c.cfg_w = w(0.0, 1.0);
@@ -1259,21 +1263,6 @@ fn main() {
                 let o = run_query_watchdog(&w, &q, WATCHDOG_MS);
                 println!("{:44} {:?} {:?} {:?} wf={} h={} ck={} :: {}", name, q.alg, q.dir, q.orient, eff_wf(&q), hk, ck, opt_payload(&w, &q, &o));
             }
-        }
-        "probe2" => {
-            use routee_compass_core::model::unit::{Distance, DistanceUnit, Speed, SpeedUnit, Time, TimeUnit};
-            let t = Time::create(&Speed::new(120.0), &SpeedUnit::KilometersPerHour, &Distance::new(22621.0), &DistanceUnit::Meters, &TimeUnit::Seconds).unwrap();
-            println!("time {}", show_f64(t.as_f64()));
-            let s = SpeedUnit::KilometersPerHour.convert(&Speed::new(120.0), &SpeedUnit::MetersPerSecond);
-            println!("speed {}", show_f64(s.as_f64()));
-            println!("k {}", show_f64(0.2777777778));
-            let r: Result<NetworkCostRate, _> = serde_json::from_value(json!({"type": "edge_lookup", "lookup": {"3": 5.0}}));
-            println!("edge_lookup from_value: {:?}", r);
-            let r2: Result<NetworkCostRate, _> = serde_json::from_str("{\"type\": \"edge_lookup\", \"lookup\": {\"3\": 5.0}}");
-            println!("edge_lookup from_str: {:?}", r2);
-            let r3: Result<HashMap<EdgeId, Cost>, _> = serde_json::from_value(json!({"3": 5.0}));
-            println!("plain map from_value: {:?}", r3);
-            println!("to_value: {:?}", serde_json::to_string(&NetworkCostRate::EdgeLookup { lookup: HashMap::from([(EdgeId(3), Cost::new(5.0))]) }));
         }
         _ => {
             eprintln!("unknown stream {}", a.stream);
